@@ -204,10 +204,13 @@ theorem deleteLoop_spelled (fuel : Nat) (toks : List Str) (t : Val) (p : Pos) (c
     omega⟩
   obtain ⟨r, hr, hfound⟩ := find_spells t true hs hne fuel [] slash true rfl hf
   have hdt := delThrough_found t p c r t' hfound hdel
+  have hdp : delPlace fuel t r = .ok r := by
+    obtain ⟨_, _, pp, _, _, _, _, hpar, _⟩ := hfound
+    exact delPlace_at _ _ _ _ hpar
   rw [hn, deleteLoop]
   have htake : toks.take (n + 1) = toks := by rw [← hn]; exact List.take_length
   rw [htake, hr]
-  simp only [Bool.true_or, if_true, hdt]
+  simp only [Bool.true_or, if_true, hdp, hdt]
   -- the parent position and the value written there
   obtain ⟨_, _, pp, sg, pv, ni, hp, _, hpv, _, hname⟩ := hfound
   simp only [List.nil_append] at hpv
